@@ -204,6 +204,10 @@ def check_pair(prog: Program, res: Result) -> None:
 
 
 def check(prog: Program, res: Result) -> None:
+    from . import _parallel
+    _parallel.check_parallel_index(prog, res, "C10-index")
+    from . import _iou
+    _iou.check_iou(prog, res, "C10-iou")
     c09.check_alloc(prog, res, rule="C10-alloc")
     check_col(prog, res)
     check_pair(prog, res)
